@@ -122,6 +122,17 @@ func c09Gen(r *Rand, tier string) interface{} {
 			case 11:
 				op = c09Op{Kind: "IsExist", Path: c09Files[r.Intn(len(c09Files))]}
 			}
+			// error paths under concurrency: the operation is aimed at a node of the wrong kind
+			// (a stream or a write on a directory, a directory operation on a file); whatever it
+			// answers, the operations after it must still get their turn
+			if r.Chance(1, 8) {
+				switch op.Kind {
+				case "WriteFile", "Writer", "ReadFile", "Reader":
+					op.Path = c09Dirs[r.Intn(3)]
+				case "MkdirAll", "ReadDir":
+					op.Path = c09Files[r.Intn(len(c09Files))]
+				}
+			}
 			if private && (op.Kind == "WriteFile" || op.Kind == "Writer" || op.Kind == "ReadFile") && r.Chance(1, 2) {
 				op.Path = fmt.Sprintf("private%d/file", c)
 			}
@@ -254,6 +265,14 @@ func c09Run(inI interface{}, env *Env) *Failure {
 	removedAncestor := func(path string) bool {
 		for _, ev := range events {
 			if (ev.op.Kind == "Remove" || ev.op.Kind == "RemoveAll") && (ev.op.Path == path || strings.HasPrefix(path, ev.op.Path+"/")) {
+				return true
+			}
+			// wrong-kind operations: a directory made at the file's own path, a file written where
+			// one of its directories was: the per-file register clauses do not apply to that path
+			if ev.op.Kind == "MkdirAll" && (ev.op.Path == path || strings.HasPrefix(ev.op.Path, path+"/")) {
+				return true
+			}
+			if (ev.op.Kind == "WriteFile" || ev.op.Kind == "Writer") && strings.HasPrefix(path, ev.op.Path+"/") {
 				return true
 			}
 		}
